@@ -12,8 +12,8 @@ CLAIMED = {
     technique="deterministic simulation: PRNG seam of the parameter initialisation (seeded, adversarial values) and simulator-stepped EM iterations with per-step invariants; datasets sampled from an independent reference enumerator",
     text="Narrow claim. The learner is stepped by the simulator (prepare(), then step() up to 12 times) instead of run(), with the module-level PRNG that initialises t(_) parameters "
          "owned and seeded by the simulator (several initialisations per case, one with adversarial draws near 0 and 1). After every step: reported log-likelihood not below the "
-         "previous one, every weight a probability, every annotated disjunction summing to at most 1; on fully observed identifiable data the first step must give the relative "
-         "frequencies. Template programs with tunable facts, tunable ADs with/without bodies and fixed heads, hidden and observed atoms; complete and partial datasets sampled from "
+         "previous one, every weight a probability, every annotated disjunction summing to at most 1 (its fixed heads, read from the program text, included when the configuration normalises); on fully observed identifiable data the first step must give the relative "
+         "frequencies. Template programs with tunable facts, tunable ADs with/without bodies and one or two (equal) fixed heads, hidden and observed atoms; complete and partial datasets sampled from "
          "a reference parameterisation. The unchanged tree violates several clauses on programs with multi-head ADs (known findings F10, F24-F27); fact-only programs and every "
          "unlisted crash site stay fully checked. Exploration level.",
     design_ref="DESIGN.md §5 C24", quick_t=1800, thorough_t=5400),
@@ -51,7 +51,7 @@ CLAIMED = {
     technique="deterministic simulation: seeded histories of ground/query/ground_all on shared database, targets and engines; fresh-run refinement oracle; failing and alarm-interrupted queries as faults; ddmin replay",
     text="Seeded operation histories (ground query / ground evidence / engine.query / ground_all / new target / new engine) run against one shared prepared ClauseDB, "
          "up to three targets with their tabling caches and up to three engines; after every operation the touched target is evaluated and compared query by query with "
-         "fresh single-query runs under the same evidence. A separate fault configuration injects queries that raise after doing real work and groundings interrupted by the "
+         "fresh single-query runs under the same evidence. Queries include non-ground calls, all/findall and subquery helpers and compound-term wrappers whose answers carry a variable inside a term. A separate fault configuration injects queries that raise after doing real work and groundings interrupted by the "
          "virtual alarm (line-count clock); the model then discards that engine and target while the database stays shared. Exploration level.",
     design_ref="DESIGN.md §5 C08", quick_t=1500, thorough_t=5400),
  "C04": dict(
